@@ -131,7 +131,7 @@ func cfgBlock(k ckey, val string) string {
 func runTwin(c kase, entries []entry, srv *server) *obs {
 	env := sbx.New()
 	defer env.Cleanup()
-	env.Timeout = 4 * time.Minute
+	env.Timeout = 3 * time.Minute
 	t := &twin{c: c, env: env, o: &obs{Files: map[string]string{}}}
 	t.s = subst{Root: env.Root, Tag: "T-" + filepath.Base(env.Root), Host: srv.Host, PHost: srv.PHost, V: variants[c.Variant]}
 	t.roots = []string{env.Root}
@@ -142,7 +142,7 @@ func runTwin(c kase, entries []entry, srv *server) *obs {
 	// sentinel programs: one per entry of the CASE, so that both twins have the same layout
 	must(os.MkdirAll(filepath.Join(root, "sentinel"), 0o755))
 	for _, e := range c.Entries {
-		sc := fmt.Sprintf("#!/bin/sh\necho \"s%d $*\" >> '%s/sentinel.log'\nexit 0\n", e.Idx, root)
+		sc := fmt.Sprintf("#!/bin/sh\necho \"s%d $*\" >> '%s/sentinel.log'\necho sentinel-output\nexit 0\n", e.Idx, root)
 		must(os.WriteFile(filepath.Join(root, "sentinel", fmt.Sprintf("s%d", e.Idx)), []byte(sc), 0o755))
 	}
 	// the ssh the user has on PATH (legitimate): answers git-lfs-authenticate, refuses git-lfs-transfer
